@@ -70,6 +70,7 @@ func (u *Unit) havocAll(st *State, why string) {
 	st.Heap = map[string]Term{}
 	st.Hid = u.newHid(hidRec{kind: 1})
 	u.havocAlls = append(u.havocAlls, why)
+	u.havocGuards = append(u.havocGuards, st.G)
 	u.bumpAlloc(st)
 }
 
